@@ -1,5 +1,6 @@
 import DW.Driver.Basic
 import DW.Model.GenDump
+import DW.Model.GenDumpSem
 
 /- driver glue for the generator model (op "gendump") -/
 namespace DW.Driver
@@ -68,5 +69,74 @@ def handleGenDump (j : Json) : Except String Json := do
   pure (Json.mkObj [("args", strsJ (genArgs g)), ("code", strJ (genCode printable g)), ("locals", strsJ (genLocals printable g)),
     ("wellScoped", Json.bool (wellScoped printable g)), ("wellScopedOld", Json.bool (wellScopedQ printable false g)),
     ("reads", strsJ (body.flatMap L2.allReads).eraseDups), ("writes", strsJ (body.flatMap L2.writes).eraseDups)])
+
+/-! ### running the generated body (op "gendumprun") -/
+
+private def litOf (j : Json) : Except String Lit :=
+  match j with
+  | Json.null => pure .none
+  | Json.bool b => pure (.bool b)
+  | Json.str s => pure (.str s.toList)
+  | Json.num _ => do pure (.int (← getInt? j))
+  | _ => throw "bad literal"
+
+private def pyValOf (j : Json) : Except String PyVal :=
+  match j with
+  | Json.null => pure .none
+  | Json.bool b => pure (.bool b)
+  | Json.str s => pure (.str s.toList)
+  | Json.num _ => do pure (.int (← getInt? j))
+  | Json.arr a => do        -- a mapping (catch-all value): [[key, value] ..] with scalar values
+    let kvs ← a.toList.mapM (fun kv => do
+      match (← gArr kv) with
+      | [k, v] => do
+        let k' ← k.getStr?
+        let v' ← (match v with
+          | Json.null => pure PyVal.none
+          | Json.bool b => pure (PyVal.bool b)
+          | Json.str s => pure (PyVal.str s.toList)
+          | Json.num _ => do pure (PyVal.int (← getInt? v))
+          | _ => throw "bad map value")
+        pure (PyVal.str k'.toList, v')
+      | _ => throw "bad map entry")
+    pure (.map .dict kvs)
+  | _ => throw "bad value"
+
+private def cvOf (j : Json) : Except String CV := do
+  let kind ← getStr j "kind"
+  match String.ofList kind with
+  | "lit" => do pure (.lit (← litOf (← j.getObjVal? "v")))
+  | "dflt" => do pure (.dflt (.lit (← litOf (← j.getObjVal? "v"))))
+  | "emptyDict" => pure (.dflt .emptyDict)
+  | "emptyList" => pure (.dflt .emptyList)
+  | x => throw s!"bad closure kind {x}"
+
+private def litVJ : LitV → Json
+  | .none => Json.null | .true_ => Json.bool true | .false_ => Json.bool false
+  | .int i => intJ i | .str s => strJ s
+
+private def emitJ : Emit → Json
+  | .entry k f => Json.arr #[Json.str "entry", strJ k, strJ f]
+  | .path idx f => Json.arr #[Json.str "path", Json.arr (idx.map litVJ).toArray, strJ f]
+  | .catchAll f => Json.arr #[Json.str "catchAll", strJ f]
+  | .tag k t => Json.arr #[Json.str "tag", strJ k, strJ t]
+
+/-- {"op":"gendumprun","gin":{…},"fields":{name: value},"exclude":null|[..],"skipDefaults":bool,
+     "closure":[{"name":..,"kind":..,"v":..}]} -> {"ok":[emits]} | {"err":"raised"|"stuck"} -/
+def handleGenDumpRun (j : Json) : Except String Json := do
+  let g ← gInOf (← j.getObjVal? "gin")
+  let fieldsJ ← (← j.getObjVal? "fields").getObj?
+  let fields ← fieldsJ.toList.mapM (fun (k, v) => do pure (k.toList, (← pyValOf v)))
+  let exclude ← match (j.getObjVal? "exclude").toOption.getD Json.null with
+    | Json.null => pure none
+    | e => do pure (some ((← (← gArr e).mapM (fun x => x.getStr?)).map String.toList))
+  let closure ← (← gArr ((j.getObjVal? "closure").toOption.getD (Json.arr #[]))).mapM (fun c => do
+    pure ((← getStr c "name"), (← cvOf c)))
+  let ρ : Env := { field := fun n => fields.lookup n, exclude := exclude, skipDefaults := getBoolD j "skipDefaults" false,
+                   closure := fun n => closure.lookup n }
+  match run ρ (genBody (fun _ => true) g) with
+  | .ok out => pure (Json.mkObj [("ok", Json.arr (out.map emitJ).toArray)])
+  | .error (.raised _) => pure (Json.mkObj [("err", Json.str "raised")])
+  | .error .stuck => pure (Json.mkObj [("err", Json.str "stuck")])
 
 end DW.Driver
